@@ -6,6 +6,7 @@ FRAMEWORK.md).
   drv_c01 [old]                          line protocol on stdin
   drv_c01 gen <seed> <count> <c01|c19> [old]   print generated histories
   drv_c01 exh <depth>                    print the bounded-exhaustive histories
+  drv_c01 stat [old]                     line protocol, prints branch/outcome tags per op
 `old` selects the model of the code as pinned (no repairs); `cfg=1000000` etc. selects single
 repairs (used to validate the model of the pinned code against the pinned code). -/
 open Usual Usual.C01 Usual.C01.Drv
@@ -26,4 +27,5 @@ def main (args : List String) : IO Unit :=
   | "gen" :: seed :: count :: profile :: _ =>
     genMain seed.toNat! count.toNat! profile cfg
   | "exh" :: depth :: _ => exhMain depth.toNat! cfg
+  | "stat" :: _ => runDriver ({ cfg := cfg, stat := true } : DSt) stepLine
   | _ => runDriver ({ cfg := cfg } : DSt) stepLine
